@@ -13,6 +13,9 @@ type Case struct {
 	Ctx    tree.ID `json:"ctx"`
 	MapFn  bool    `json:"mapfn"`
 	Blanks bool    `json:"blanks,omitempty"`
+	// StoredPaths: the data tree hands out one stored path object per node (GetSdcpbPath, used for the target of a
+	// deref) and the machine is evaluated once more on the same tree: the second evaluation asks as the first did
+	StoredPaths bool `json:"stored_paths,omitempty"`
 }
 
 var names = []string{"a", "b", "c", "d", "e", "if", "div", "and", "x-1", "lst"}
@@ -176,7 +179,7 @@ func genCase(t *rapid.T) Case {
 			e = xp.Bin("or", e, xp.Bin("!=", xp.PathE(g.mainPath()), xp.Lit("y")))
 		}
 	}
-	return Case{Expr: e, Ctx: g.ctxID(), MapFn: rapid.Bool().Draw(t, "mapfn"), Blanks: rapid.Bool().Draw(t, "blanks")}
+	return Case{Expr: e, Ctx: g.ctxID(), MapFn: rapid.Bool().Draw(t, "mapfn"), Blanks: rapid.Bool().Draw(t, "blanks"), StoredPaths: rapid.Bool().Draw(t, "storedpaths")}
 }
 
 // Gen is the exported generator (used by C05/C06).
